@@ -3,6 +3,7 @@ CONSTANTS
   OpenDev = {}
   States <- ListStates
   CmdU <- ListCmds
+  Relevant <- AllRelevant
   Fam = "lists"
 ACTION_CONSTRAINT Emit
 VIEW View
